@@ -2,13 +2,12 @@ package main
 
 import (
 	"fmt"
-	"io"
 	"os"
 	"regexp"
 	"strings"
 
-	"github.com/rs/zerolog"
 	"github.com/rs/zerolog/diode/verifh/evid"
+	"github.com/rs/zerolog/diode/verifh/gen"
 )
 
 func mustFlags(args []string) *evid.Flags {
@@ -31,39 +30,8 @@ func init() {
 	}
 }
 
-type staleArr struct{}
-
-func (staleArr) MarshalZerologArray(a *zerolog.Array) { a.Str("stale-m").Int(9) }
-
-type staleObj struct{}
-
-func (staleObj) MarshalZerologObject(e *zerolog.Event) { e.Str("stale-k", "stale-v") }
-
-var histFiltered = zerolog.New(io.Discard).Level(zerolog.ErrorLevel)
-
-// poolHistory: what the process did before the case under test - events that were filtered out, discarded or never
-// finished, each handed arrays, dictionaries and objects with contents of their own. Events, arrays and
-// dictionaries are pooled: none of this may show in what is logged next.
-func poolHistory(idx int) {
-	l := histFiltered
-	switch idx / 2 % 6 {
-	case 0:
-		l.Debug().Array("a", zerolog.Arr().Str("stale").Int(7)).Dict("d", zerolog.Dict().Str("stale", "x")).Msg("filtered")
-	case 1:
-		l.Error().Array("a", zerolog.Arr().Str("stale").Int(7)).Dict("d", zerolog.Dict().Str("stale", "x")).Discard().Msg("discarded")
-	case 2:
-		l.Debug().Array("a", staleArr{}).Object("o", staleObj{}).EmbedObject(staleObj{}).Interface("i", staleObj{}).Send()
-	case 3:
-		_ = l.With().Array("a", zerolog.Arr().Str("stale")).Dict("d", zerolog.Dict().Int("stale", 1)).Logger()
-	case 4:
-		l.Debug().Array("a", zerolog.Arr().Dict(zerolog.Dict().Str("stale", "y")).Object(staleObj{})).Fields(map[string]interface{}{"stale": 1}).Msg("filtered")
-	default:
-		func() {
-			defer func() { recover() }()
-			l.Panic().Array("a", zerolog.Arr().Str("stale")).Msg("stale-panic")
-		}()
-	}
-}
+// poolHistory: what the goroutine did before the case under test (see gen.History).
+func poolHistory(idx int) { gen.History(1 + idx/2%gen.NHistories) }
 
 func plainASCII(b []byte) bool {
 	for _, c := range b {
